@@ -658,8 +658,22 @@ def run_sequences(ctx, nseq, collect):
             break
 
 
+def guarded_set_assembly(ctx, chg, a, case, set_fuel=True):
+    """setAssembly (linkage, targets, dummy-block test) on a VALID assembly: a raise is a keyed failure with the
+    assembly's specification"""
+    try:
+        with common.quiet():
+            chg.setAssembly(a, set_fuel)
+        return True
+    except Exception as e:  # noqa
+        if not real_code_failure(ctx, e, "setAssembly", dict(case, spec=assembly_spec(a))):
+            raise
+        return False
+
+
 def run_rejects(ctx, collect):
-    """erroneous calls: a non-positive factor, and growth the dummy block cannot absorb"""
+    """erroneous calls: a non-positive factor, and growth the dummy block cannot absorb (the preparation of the valid
+    assembly - linkage, targets - must succeed; only the erroneous part may be refused)"""
     fx = fixtures()
     req, chk = collect
     for kind in ("zero-factor", "negative-factor", "dummy-overflow"):
@@ -672,9 +686,12 @@ def run_rejects(ctx, collect):
             pcts = [1.0 for _ in solids]
             pcts[ctx.rng.randrange(len(pcts))] = 0.0 if kind == "zero-factor" else -0.5
         chg.pre = None
+        if not guarded_set_assembly(ctx, chg, a, {"assembly": a.getType(), "mode": "refused call: " + kind}):
+            continue
         try:
             with common.quiet():
-                chg.performPrescribedAxialExpansion(a, solids, pcts, setFuel=True)
+                chg.expansionData.setExpansionFactors(solids, pcts)
+                chg.axiallyExpandAssembly()
             ctx.fail("unphysical-expansion-accepted", "a non-positive factor / a negative block height is refused",
                      {"kind": kind}, observed="no exception")
         except (RuntimeError, ArithmeticError):
@@ -683,10 +700,7 @@ def run_rejects(ctx, collect):
                 req.append(request(chg.pre))
                 chk.append(({"kind": kind}, None, None, None))
             else:                       # refused by setExpansionFactors before anything ran: model the same inputs
-                chg2, snapshot2, _ = make_changer()
-                b = copy.deepcopy(ctx.rng.choice(fx["assems"]))
-                chg2.setAssembly(b)
-                pre = snapshot2(b, chg2)
+                pre = snapshot(a, chg)
                 sol = [c for blk in pre[:-1] for c in blk["comps"]]
                 sol[ctx.rng.randrange(len(sol))]["g"] = 0.0 if kind == "zero-factor" else -0.5
                 req.append(request(pre))
@@ -986,8 +1000,27 @@ def build_assembly(kinds, heights, top="fluid"):
     T = {"Tinput": 25.0, "Thot": 400.0}
 
     def blk(kind, h):
+        nonlocal T
+        T = {"Tinput": 25.0, "Thot": 400.0}
+        if "@" in kind:                 # "<kind>@<Thot>": the hot temperature of this block's components
+            kind, th = kind.split("@")
+            T = {"Tinput": 25.0, "Thot": float(th)}
         b = HexBlock(kind, height=h)
-        if kind == "fuel":
+        if kind == "tightfuel":
+            # TIGHT COLD GAP: pin cold od 0.760 < clad cold id 0.765 < pin hot od (UZr at 350 C and above)
+            comps = [Circle("fuel", "UZr", od=0.760, id=0.0, mult=127.0, **T), Circle("clad", "HT9", od=0.80, id=0.765, mult=127.0, **T)]
+            tgt = "fuel"
+        elif kind == "barepin":
+            # the same pin without a clad of its own (a slug / pellet stack): next to an annulus-only block nothing but
+            # the temperature-dependent comparison could link it to that annulus
+            comps = [Circle("fuel", "UZr", od=0.760, id=0.0, mult=127.0, **T)]
+            tgt = "fuel"
+        elif kind == "ringslab":
+            # the same annulus (cold id 0.765) as a NON-target liner in the holes of the target slab, no pin inside
+            comps = [HoledHexagon("shield", "HT9", op=15.2, holeOD=0.8, nHoles=127, mult=1.0, **T),
+                     Circle("liner", "HT9", od=0.80, id=0.765, mult=127.0, **T)]
+            tgt = "shield"
+        elif kind == "fuel":
             comps = [Circle("fuel", "UZr", od=0.76, id=0.0, mult=127.0, **T), Circle("clad", "HT9", od=0.80, id=0.77, mult=127.0, **T)]
             tgt = "fuel"
         elif kind == "customfuel":      # a SOLID target whose material is Custom (custom isotopics)
@@ -1015,7 +1048,7 @@ def build_assembly(kinds, heights, top="fluid"):
         comps.append(Hexagon("intercoolant", "Sodium", op=17.0, ip=16.0, mult=1.0, **T))
         for c in comps:
             b.add(c)
-        b.setType("fuel" if kind in ("fuel", "customfuel") else "reflector")
+        b.setType("fuel" if kind in ("fuel", "customfuel", "tightfuel", "barepin") else "reflector")
         b.getVolumeFractions()
         b.p.axialExpTargetComponent = tgt
         return b
@@ -1984,6 +2017,157 @@ def run_alias_cells(ctx):
         ctx.case(("alias-cells", tuple(cells), tuple(how), tuple(fs)), nontrivial=len(set(cells)) < n)
 
 
+TIGHT_KINDS = ("tightfuel", "ringslab", "barepin")
+TIGHT_STACKS = (["tightfuel", "tightfuel", "slab"], ["ringslab", "tightfuel", "slab"], ["tightfuel", "ringslab"],
+                ["slab", "tightfuel", "tightfuel", "ringslab", "tightfuel"], ["ringslab", "tightfuel", "ringslab"],
+                ["ringslab", "barepin", "slab"], ["barepin", "ringslab"], ["ringslab", "barepin", "ringslab", "barepin"])
+
+
+def link_table(chg, a):
+    """(lower, upper) of every solid component as indices among the neighbouring block's solids"""
+    out = []
+    blocks = list(a)
+    for ib, b in enumerate(blocks):
+        lo = solids(blocks[ib - 1]) if ib > 0 else []
+        up = solids(blocks[ib + 1]) if ib + 1 < len(blocks) else []
+        row = []
+        for c in solids(b):
+            lk = chg.linked.linkedComponents.get(c)
+            if lk is None:
+                row.append(("?", "?"))
+                continue
+            row.append((None if lk.lower is None else (lo.index(lk.lower) if lk.lower in lo else -1),
+                        None if lk.upper is None else (up.index(lk.upper) if lk.upper in up else -1)))
+        out.append(row)
+    return out
+
+
+def run_tight_gaps(ctx, collect):
+    """AXIAL LINKAGE IS DECIDED ON COLD DIMENSIONS: stacks with a tight cold gap (pin cold od 0.760 < annulus cold id
+    0.765 < pin hot od) built at several hot temperatures (25 = input temperature, 350, 450, 600 C; also different
+    temperatures in neighbouring blocks). The linkage of a valid stack can be built, equals the linkage of the same stack
+    at Thot = Tinput and the model's linkage from the cold dimensions; under differential growth the targets stay stacked
+    on the block below (block grows by its target's factor, target mass conserved)."""
+    temps = [25.0, 350.0, 450.0, 600.0]
+    for stack in TIGHT_STACKS if ctx.thorough else ctx.rng.sample(list(TIGHT_STACKS[:5]), 2) + ctx.rng.sample(list(TIGHT_STACKS[5:]), 2):
+        heights = [ctx.rng.choice([8.0, 16.0, 20.5]) for _ in stack] + [16.0]
+        try:
+            with common.quiet():
+                cold = build_assembly([(f"{k}@25" if k in TIGHT_KINDS else k) for k in stack], heights)
+        except Exception as e:  # noqa
+            raise common.Infra(f"cannot build the tight-gap assembly {stack}: {e!r}")
+        cchg, _s, _i = make_changer()
+        ccase = {"assembly": "built:" + "/".join(stack), "heights": heights, "Thot": "= Tinput (25 C)"}
+        if not guarded_set_assembly(ctx, cchg, cold, ccase):
+            continue
+        ref_table = link_table(cchg, cold)
+        for T in (temps if ctx.thorough else [25.0] + ctx.rng.sample(temps[1:], 2)) + ["mixed"]:
+            th = [T if T != "mixed" else ctx.rng.choice(temps) for _ in stack]
+            kinds = [(f"{k}@{t}" if k in TIGHT_KINDS else k) for k, t in zip(stack, th)]   # (the wide-gap kinds stay at 400 C)
+            case = {"assembly": "built:" + "/".join(kinds), "heights": heights, "mode": "tight cold gap"}
+            try:
+                with common.quiet():
+                    a = build_assembly(kinds, heights)
+            except Exception as e:  # noqa
+                if not real_code_failure(ctx, e, "building a block with a tight cold gap", case):
+                    raise
+                continue
+            chg, snapshot, iterSolid = make_changer()
+            if not guarded_set_assembly(ctx, chg, a, case):
+                continue
+            table = link_table(chg, a)
+            if table != ref_table:
+                ctx.fail("linkage-independent-of-temperature", "axial linkage is decided on the cold dimensions: a stack links at "
+                         "any hot temperature exactly as at Thot = Tinput", case, observed=table, expected=ref_table)
+            H0, top0 = a.getTotalHeight(), float(a[-1].p.ztop)
+            budget = [0, 0]
+            for k in range(2):
+                sol = [(ib, c) for ib, b in enumerate(a[:-1]) for c in iterSolid(b)]
+                grow = {"fuel": 1.0 + ctx.rng.choice([6, 10, 13]) / 256.0, "liner": 1.0 + ctx.rng.choice([-4, 3, 5]) / 256.0}
+                pcts = [grow.get(c.name, 1.0) for _ib, c in sol]
+                c2 = dict(case, step=k, growth=grow)
+                r = one_step(ctx, collect, a, a, chg, snapshot, iterSolid, c2, H0, top0, budget, "prescribed",
+                             ([c for _ib, c in sol], pcts))
+                if r is None:
+                    break
+                pre, post = r
+                # the pin of a tight-gap block has nothing below it but a pin (or the block boundary): its block grows with it
+                for ib in range(len(pre) - 1):
+                    t = tgt_of(pre[ib])
+                    if t is None or pre[ib]["comps"][t]["name"] != "fuel":
+                        continue
+                    g = pre[ib]["comps"][t]["g"]
+                    below_ok = ib == 0 or all(tgt_of(pre[jb]) is not None and
+                                              pre[jb]["comps"][tgt_of(pre[jb])]["name"] in ("fuel", "shield") for jb in range(ib))
+                    if below_ok and not fclose(post[ib]["h"], g * pre[ib]["h"], 1e-12):
+                        ctx.fail("block-grows-with-target", "a block whose target sits on the block below grows by the target's factor",
+                                 dict(c2, block=ib), observed=post[ib]["h"], expected=g * pre[ib]["h"])
+                    if below_ok and not fclose(post[ib]["comps"][t]["mass"], pre[ib]["comps"][t]["mass"], 1e-9):
+                        ctx.fail("target-mass-conserved", "mass of the target component is conserved (its pin is stacked on the "
+                                 "pin / block below, never on a neighbouring annulus)", dict(c2, block=ib),
+                                 observed=post[ib]["comps"][t]["mass"], expected=pre[ib]["comps"][t]["mass"])
+                ctx.case(("tight-gap", tuple(kinds), tuple(heights), k), nontrivial=True)
+            ctx.count("tight cold gap stacks at Thot " + ("mixed" if T == "mixed" else str(T)))
+
+
+def run_long_unity(ctx):
+    """LONG sequences of growth fractions within 1e-6 of 1.0 (but not 1.0): N prescribed steps of 1 + 5e-7 on one
+    ExpansionData, and a uniform temperature raised in 0.05 C steps; after the sequence every density (linear density for
+    the thermal one) times the exact product of the factors equals the initial one and masses are conserved to round-off
+    (tolerance 1e-10: a systematic per-step omission of 5e-7 shows after a handful of steps)."""
+    n_presc, n_therm = ctx.pick(400, 2000), ctx.pick(120, 600)
+    for variant in ("prescribed", "thermal"):
+        stack = ctx.rng.choice([["fuel", "slab"], ["fuel", "fuel", "holedslab"], ["customfuel", "slab"]])
+        with common.quiet():
+            a = build_assembly(stack, [16.0] * (len(stack) + 1), ctx.rng.choice(["fluid", "duct"]))
+        chg, snapshot, iterSolid = make_changer()
+        case = {"assembly": "built:" + "/".join(stack), "mode": "long near-unity sequence: " + variant}
+        if not guarded_set_assembly(ctx, chg, a, case):
+            continue
+        start = snapshot(a)
+        prod = [[Fraction(1) for _c in b["comps"]] for b in start]
+        H0 = a.getTotalHeight()
+        sol = [c for b in a[:-1] for c in iterSolid(b)]
+        eps = ctx.rng.choice([5e-7, -5e-7, 2.5e-7, 9e-7])
+        n = n_presc if variant == "prescribed" else n_therm
+        T = 400.0
+        try:
+            with common.quiet():
+                if variant == "prescribed":
+                    chg.expansionData.setExpansionFactors(sol, [1.0 + eps] * len(sol))
+                for k in range(n):
+                    if variant == "thermal":
+                        T += 0.05
+                        chg.performThermalAxialExpansion(a, [0.0, H0 / 4, H0 / 2, 3 * H0 / 4, H0], [T] * 5, setFuel=True)
+                    else:
+                        chg.axiallyExpandAssembly()
+                    for ib, b in enumerate(chg.pre[:-1]):
+                        for ic, c in enumerate(b["comps"]):
+                            prod[ib][ic] *= Fraction(c["g"])
+        except Exception as e:  # noqa
+            if not real_code_failure(ctx, e, "long sequence of near-unity expansions", dict(case, step=k)):
+                raise
+            continue
+        end = snapshot(a)
+        if not fclose(a.getTotalHeight(), H0, 1e-12):
+            ctx.fail("height-preserved", "total assembly height is unchanged", case, observed=a.getTotalHeight(), expected=H0)
+        for ib in range(len(start) - 1):
+            t = tgt_of(chg.pre[ib])
+            for ic, (cs, ce) in enumerate(zip(start[ib]["comps"], end[ib]["comps"])):
+                p = float(prod[ib][ic])
+                lin0, lin1 = cs["nd"] * cs["area"], ce["nd"] * ce["area"]
+                if abs(p - 1.0) > 1e-9 and not fclose(lin1 * p, lin0, 1e-10):
+                    ctx.fail("near-unity-growth-divides-density", "after a long sequence of growth fractions within 1e-6 of 1.0 "
+                             "every density is the initial one divided by the exact product of the factors (no step's density "
+                             "update skipped)", dict(case, steps=n, block=ib, comp=cs["name"], product=p),
+                             observed=lin1, expected=lin0 / p)
+                if (variant == "prescribed" or ic == t) and not fclose(cs["mass"], ce["mass"], 1e-9):
+                    ctx.fail("near-unity-growth-conserves-mass", "... and masses are conserved to round-off", 
+                             dict(case, steps=n, block=ib, comp=cs["name"]), observed=ce["mass"], expected=cs["mass"])
+        ctx.count(f"long near-unity sequence ({variant})", n)
+        ctx.case(("long-unity", variant, tuple(stack), eps, n), nontrivial=True)
+
+
 def run_thermal_patterns(ctx, collect):
     """call patterns of the thermal path through the public pieces (setAssembly, updateComponentTemp(sBy1DTempField),
     computeThermalExpansionFactors, axiallyExpandAssembly): factors computed once, twice, or after every block's
@@ -2259,28 +2443,88 @@ def compare_links(ctx):
         ctx.samples.append({"request": req[0][:300], "model": model[0][:200], "impl": chk[0][1][:200]})
 
 
+def real_code_failure(ctx, e, where, spec):
+    """an exception raised INSIDE the real code on a valid input is a failure of the property's implementation (with the
+    input as replay), never an infrastructure failure; an exception raised by the harness itself is re-raised"""
+    import traceback
+
+    tb = traceback.extract_tb(e.__traceback__)
+    inner = [f for f in tb if "/armi/" in f.filename.replace("\\", "/") and "/harness/" not in f.filename]
+    if not inner or "/harness/" in tb[-1].filename:
+        return False
+    last = inner[-1]
+    calls = [f for f in tb if "/harness/" in f.filename]
+    site = f"{os.path.basename(last.filename)}:{last.name}"
+    if "assemblyAxialLinkage" in last.filename:
+        key, clause = "linkage-raises-on-valid-assembly", "the axial linkage of a valid assembly can be built"
+    elif isinstance(e, ArithmeticError):
+        key, clause = "expansion-raises", "a physical expansion of an assembly with a dummy block succeeds"
+    else:
+        key, clause = "real-code-raises-on-valid-input", "the real code accepts a valid assembly / call"
+    ctx.fail(key, clause, dict(spec, where=where, raised_in=site,
+                               harness_line=(f"{os.path.basename(calls[-1].filename)}:{calls[-1].lineno}" if calls else None)),
+             observed=repr(e)[:300])
+    return True
+
+
+def assembly_spec(a):
+    """enough of an assembly to rebuild the failing input: type, block types, heights, solid components with their
+    cold dimensions and temperatures"""
+    try:
+        blocks = []
+        for b in a:
+            comps = []
+            for c in b:
+                d = {"name": c.name, "shape": type(c).__name__, "material": type(c.material).__name__,
+                     "Tinput": float(c.inputTemperatureInC), "Thot": float(c.temperatureInC)}
+                for k in ("od", "id", "op", "ip", "mult"):
+                    try:
+                        d[k] = float(c.getDimension(k, cold=True))
+                    except Exception:  # noqa
+                        pass
+                comps.append(d)
+            blocks.append({"type": b.getType(), "height": float(b.getHeight()), "components": comps})
+        return {"assembly": label(a) if id(a) in TOP_TAG else a.getType(), "blocks": blocks}
+    except Exception as e:  # noqa
+        return {"assembly": repr(a)[:80], "spec_error": repr(e)[:80]}
+
+
+def stream(ctx, collect, fn, *args):
+    """run one generator stream; exceptions that escape it from inside the real code become keyed failures"""
+    try:
+        fn(ctx, *args)
+    except common.Infra:
+        raise
+    except Exception as e:  # noqa
+        if not real_code_failure(ctx, e, "stream " + fn.__name__, {"stream": fn.__name__, "seed": ctx.seed}):
+            raise
+    finally:
+        for lists in (collect, LINK, ROUTES):
+            n = min(len(lists[0]), len(lists[1]))
+            del lists[0][n:], lists[1][n:]
+
+
 def run(ctx):
     del LINK[0][:], LINK[1][:]
     collect = ([], [])
     del ROUTES[0][:], ROUTES[1][:]
-    run_targets(ctx)
-    run_link_pairs(ctx)
-    run_store(ctx)
-    run_blocktemps(ctx)
-    run_thermal_dispatch(ctx)
-    run_alias_cells(ctx)
-    run_built(ctx, collect)
-    run_state_carry(ctx, collect)
-    run_reuse(ctx, collect)
-    run_retarget(ctx, collect)
-    run_aliased(ctx, collect)
-    run_thermal_patterns(ctx, collect)
-    run_rejects(ctx, collect)
-    run_cold_to_hot(ctx)
-    run_core_mesh(ctx)
-    run_zero_celsius(ctx, collect)
-    run_small_steps(ctx, collect)
-    run_sequences(ctx, ctx.pick(150, 1500), collect)
+    try:
+        fixtures()
+        top_pool(ctx)
+    except common.Infra:
+        raise
+    except Exception as e:  # noqa
+        if not real_code_failure(ctx, e, "fixture preparation (loading armi/tests/detailedAxialExpansion, which expands every "
+                                 "assembly from cold to hot)", {"inputs": "armi/tests/detailedAxialExpansion"}):
+            raise
+        return
+    for fn, args in ((run_targets, ()), (run_link_pairs, ()), (run_store, ()), (run_blocktemps, ()), (run_thermal_dispatch, ()),
+                     (run_alias_cells, ()), (run_tight_gaps, (collect,)), (run_long_unity, ()), (run_built, (collect,)),
+                     (run_state_carry, (collect,)), (run_reuse, (collect,)), (run_retarget, (collect,)),
+                     (run_aliased, (collect,)), (run_thermal_patterns, (collect,)), (run_rejects, (collect,)),
+                     (run_cold_to_hot, ()), (run_core_mesh, ()), (run_zero_celsius, (collect,)), (run_small_steps, (collect,)),
+                     (run_sequences, (ctx.pick(150, 1500), collect))):
+        stream(ctx, collect, fn, *args)
     compare(ctx, *collect)
     compare_links(ctx)
     compare_routes(ctx)
@@ -2324,13 +2568,19 @@ def search(ctx, disagreements, broken):
 
 
 def replay(ctx, payload):
-    sub = type(ctx)(ctx.prop, "quick", int(payload.get("seed", 0)))
-    collect = ([], [])
-    run_rejects(sub, collect)
-    run_sequences(sub, 60, collect)
-    if not [f for f in sub.failures if f.key == payload["key"]]:
-        s2 = type(ctx)(ctx.prop, "quick", int(payload.get("seed", 0)) + 17)
-        run_sequences(s2, 60, ([], []))
-        sub.failures += s2.failures
-    hit = [f for f in sub.failures if f.key == payload["key"]]
-    return hit[0].to_json() if hit else None
+    """re-run the generator streams with the payload's seed until the failing clause shows again"""
+    seed = int(payload.get("seed", 0))
+    for sd in (seed, seed + 17):
+        sub = type(ctx)(ctx.prop, "quick", sd)
+        collect = ([], [])
+        del LINK[0][:], LINK[1][:], ROUTES[0][:], ROUTES[1][:]
+        for fn, args in ((run_rejects, (collect,)), (run_tight_gaps, (collect,)), (run_long_unity, ()), (run_alias_cells, ()),
+                         (run_cold_to_hot, ()), (run_retarget, (collect,)), (run_aliased, (collect,)), (run_reuse, (collect,)),
+                         (run_built, (collect,)), (run_state_carry, (collect,)), (run_thermal_patterns, (collect,)),
+                         (run_core_mesh, ()), (run_zero_celsius, (collect,)), (run_small_steps, (collect,)),
+                         (run_store, ()), (run_blocktemps, ()), (run_targets, ()), (run_sequences, (60, collect))):
+            stream(sub, collect, fn, *args)
+            hit = [f for f in sub.failures if f.key == payload["key"]]
+            if hit:
+                return hit[0].to_json()
+    return None
